@@ -27,8 +27,10 @@ produced that state.
   a block whose affinity had moved straight to another host; `last_block_history_fixed` is the old
   counterexample history, which now releases nothing; the harness oracle keeps the signature
   `last-block-stale-index` and corpus/C23/last-block.ops so a regression is reported.)
-* `handle_all_or_none` is only proved as the per-address guard inside `gc_release_justified`
-  (all allocations sharing the handle are confirmed leaks when the address is selected).
+* `handle_all_or_none`: proved as the per-address guard inside `gc_release_justified` (all allocations
+  sharing the handle are confirmed leaks when the address is selected).  At BATCH level it is false and
+  order dependent: `handle_split_witness` (same state, two visiting orders of `confirmedLeaks`, different
+  batches); settled on the real code by the harness's order-parametric probe (KNOWN-FINDING sig=handle-split).
 -/
 namespace CalicoVerif.C23
 
@@ -443,6 +445,27 @@ def lastBlockHistory : List Op :=
 theorem last_block_history_fixed :
     let r := runOps { grace := some 60 } lastBlockHistory
     r.2.getLast? = some [] ∧ r.1.blocksByNode.get 1 = some [2] ∧ r.1.blocksByNode.get 2 = some [1] := by
+  decide +kernel
+
+/-! ### "all of a handle's addresses together or none" depends on the iteration order -/
+
+/-- two addresses of handle 4 (pod 4 on node 1); the informer cache has lost the pod, the API has it and it
+reports only address 1.1; both addresses become candidates, then (70 min later, grace 60) confirmed leaks. -/
+def handleSplitHistory : List Op :=
+  [.inSync, .cnode 1 (some 1), .knode 1 true,
+   .block 1 (some 1) [⟨0, some 4, .pod, 1, 4, 1⟩, ⟨1, some 4, .pod, 1, 4, 2⟩],
+   .pod 4 false true ⟨1, [(1, 1)], false⟩, .sync false, .tick 70]
+
+/-- **Witness: `handle_all_or_none` is false at batch level and depends on the order in which
+`garbageCollectKnownLeaks` visits `confirmedLeaks`** (a Go map).  From the SAME state, visiting address 1.0
+first releases it alone (its handle-mate 1.1 is resurrected by the final API check afterwards); visiting 1.1
+first releases nothing.  Reproduced on the real controller by the harness's order-parametric probe
+(64 fresh runs: both outcomes occur; oracle signature `handle-split`). -/
+theorem handle_split_witness :
+    let s := (checkAllocations { (runOps { grace := some 60 } handleSplitHistory).1 with fullSync := true }).1
+    s.leaks = [(4, 1, 0), (4, 1, 1)] ∧
+    ((gcSelect s [(4, 1, 0), (4, 1, 1)]).2.map (fun a => (a.block, a.ord))) = [(1, 0)] ∧
+    ((gcSelect s [(4, 1, 1), (4, 1, 0)]).2.map (fun a => (a.block, a.ord))) = [] := by
   decide +kernel
 
 /-! ### non-vacuity -/
